@@ -10,6 +10,10 @@
 (*   addl        every rule carries no additional binding ("none") or one  *)
 (*               additional binding of the same resource pattern whose uri *)
 (*               sorts before / after the primary one ("before" / "after") *)
+(*   dup         every http rule is preceded in the YAML by an OLDER rule  *)
+(*               for the same selector (prefix /v0old/, for GetOperation   *)
+(*               also another verb and body); google.api.Http: the LAST    *)
+(*               rule of a selector is the one that counts                 *)
 (*   own         the set of IAM-named RPCs (SetIamPolicy / GetIamPolicy /  *)
 (*               TestIamPermissions) the API declares itself, in service   *)
 (*               Carrier                                                   *)
@@ -131,9 +135,9 @@ NoCall == [svc |-> "-", m |-> "-", kind |-> "-", via |-> "-", path |-> "-", reqt
            hkey |-> "-", hval |-> "-", verb |-> "-", body |-> "-", extra |-> "-"]
 NoneExposed == [sv \in Svcs |-> [c \in ClientKinds |-> {}]]
 
-VARIABLES apis, rules, addl, own, layout, transports, legacy, tmpl, clients, phase, exposed, call
-vars == <<apis, rules, addl, own, layout, transports, legacy, tmpl, clients, phase, exposed, call>>
-cfgvars == <<apis, rules, addl, own, layout, transports, legacy, tmpl, clients>>
+VARIABLES apis, rules, addl, dup, own, layout, transports, legacy, tmpl, clients, phase, exposed, call
+vars == <<apis, rules, addl, dup, own, layout, transports, legacy, tmpl, clients, phase, exposed, call>>
+cfgvars == <<apis, rules, addl, dup, own, layout, transports, legacy, tmpl, clients>>
 
 \* ---- input space ----------------------------------------------------------------------------------
 \* Pairwise-covering family of rule assignments: the 27 rows (a, b, c) of Z3^3 against ten pairwise
@@ -158,10 +162,15 @@ ASSUME Scope \in {"thorough", "full"} => PairwiseCovered(RuleSets)
 AddlSeq == <<"none", "before", "after">>
 IsRow(r) == r = Row(r[RPCSeq[1]], r[RPCSeq[2]], r[RPCSeq[3]])
 AddlOfRow(r) == AddlSeq[((r[RPCSeq[1]] + r[RPCSeq[2]] + 2 * r[RPCSeq[3]]) % 3) + 1]
+\* a twelfth column (vector <<1,2,1>>) decides which rows carry duplicated selectors; the all-on rule sets come with and without
+DupOfRow(r) == (r[RPCSeq[1]] + 2 * r[RPCSeq[2]] + r[RPCSeq[3]]) % 3 = 1
+DupChoices(r) == IF r \in {AllRules(1), AllRules(2)} THEN BOOLEAN ELSE IF IsRow(r) THEN {DupOfRow(r)} ELSE {FALSE}
 AddlChoices(r) == IF r = AllRules(1) THEN {"none", "before"} ELSE IF r = AllRules(2) THEN {"none", "after"}
                   ELSE IF IsRow(r) THEN {AddlOfRow(r)} ELSE {"none"}
 ASSUME Scope = "thorough" => \A i \in 1..10, a \in 0..2, x \in Addls :
                                \E r \in OARows({0, 1, 2}) : r[RPCSeq[i]] = a /\ AddlOfRow(r) = x
+ASSUME Scope = "thorough" => \A i \in 1..10, a \in 0..2, d \in BOOLEAN :
+                               \E r \in OARows({0, 1, 2}) : r[RPCSeq[i]] = a /\ DupOfRow(r) = d
 
 TransportSets == {{"grpc"}, {"rest"}, {"grpc", "rest"}}
 \* the Ads template set has its own copy of the mixin code: a reduced grid is enough
@@ -185,7 +194,11 @@ PartialOk == PartialOwn => /\ layout = "single" /\ transports = {"grpc", "rest"}
                            /\ (apis = {IAM} => rules \in {AllRules(1), Row(1, 0, 0), Row(0, 1, 0)})
 \* the exhaustive rule space of the "full" scope is explored for the single-service layout
 FullOk == layout = "single" \/ rules \notin ([RPCs -> {0, 1}] \ ({AllRules(1)} \cup OARows({0, 1, 2})))
-Init == /\ apis \in SUBSET Apis /\ rules \in RuleSets /\ addl \in AddlChoices(rules)
+\* duplicated selectors with the all-on rule sets: plain or legacy single-service configurations
+DupOk == (dup /\ rules \in {AllRules(1), AllRules(2)}) =>
+            /\ own = {} /\ layout = "single" /\ (tmpl = "ads" => ~legacy)
+            /\ addl = (IF rules = AllRules(1) THEN "none" ELSE "after")
+Init == /\ apis \in SUBSET Apis /\ rules \in RuleSets /\ addl \in AddlChoices(rules) /\ dup \in DupChoices(rules)
         /\ own \in SUBSET IamRPCs /\ legacy \in BOOLEAN
         /\ ~(own # {} /\ legacy)
         /\ layout \in (IF own # {} THEN {"single", "own_first", "own_last"} ELSE {"single"})
@@ -196,6 +209,7 @@ Init == /\ apis \in SUBSET Apis /\ rules \in RuleSets /\ addl \in AddlChoices(ru
         /\ (Scope = "full" => FullOk)
         /\ tmpl \in (IF Scope = "small" THEN {"default"} ELSE {"default", "ads"})
         /\ (tmpl = "ads" => AdsOk)
+        /\ DupOk
         /\ clients \in {{"sync"}, {"sync", "asyncio"}}
         /\ phase = "generated" /\ exposed = NoneExposed /\ call = NoCall
 
@@ -255,8 +269,21 @@ GrpcCall(sv, m, k) ==
    verb |-> "-", body |-> "-", extra |-> "-"]
 \* the bindings of m's rule in declaration order; every one carries Pattern(m), so each matches Value(m) and the call uses
 \* the first one: the primary pattern
-Bindings(m) == LET r == RuleOf(m, rules[m]) IN
-               IF addl = "none" THEN <<r>> ELSE <<r, [r EXCEPT !.pre = AddlPre(addl)]>>
+\* The http.rules of the YAML, in order: when `dup`, an older block of rules (a shared fragment) comes first, then the rules
+\* proper.  An entry = [m, b: primary binding, add: additional bindings].
+OldRule(m) == LET r == RuleOf(m, rules[m]) IN
+              IF m = "GetOperation"
+              THEN [r EXCEPT !.pre = "/v0old/", !.verb = (IF r.body = "*" THEN "get" ELSE "post"), !.body = (IF r.body = "*" THEN "" ELSE "*")]
+              ELSE [r EXCEPT !.pre = "/v0old/"]
+Configured == SelectSeq(RPCSeq, LAMBDA m : rules[m] # 0)
+YamlRules == (IF dup THEN [i \in 1..Len(Configured) |-> [m |-> Configured[i], b |-> OldRule(Configured[i]), add |-> <<>>]] ELSE <<>>)
+             \o [i \in 1..Len(Configured) |->
+                   LET m == Configured[i]  r == RuleOf(m, rules[m]) IN
+                   [m |-> m, b |-> r, add |-> IF addl = "none" THEN <<>> ELSE << [r EXCEPT !.pre = AddlPre(addl)] >>]]
+\* google.api.Http: "last one wins" - the last rule of a selector is the one that counts
+Effective(m) == LET es == SelectSeq(YamlRules, LAMBDA e : e.m = m) IN
+                IF Mutant = "first_rule_wins" THEN es[1] ELSE es[Len(es)]
+Bindings(m) == <<Effective(m).b>> \o Effective(m).add
 Chosen(m) == LET bs == Bindings(m) IN
              IF Mutant = "sorted_bindings"
              THEN bs[CHOOSE i \in 1..Len(bs) : \A j \in 1..Len(bs) : Rank(bs[i].pre) <= Rank(bs[j].pre)]
@@ -353,13 +380,11 @@ TriplesSeq(P(_, _, _)) ==      \* all <<sv, m, k>> with P(sv, m, k), in the fixe
 Case ==
   [ apis |-> SelectSeq(ApiSeq, LAMBDA a : a \in apis),
     rulecode |-> rules,
-    rules |-> [i \in 1..Len(RpcSeqOf({m \in RPCs : rules[m] # 0})) |->
-                 LET m == RpcSeqOf({x \in RPCs : rules[x] # 0})[i] IN
-                 [selector |-> ApiOf(m) \o "." \o m, verb |-> RuleOf(m, rules[m]).verb, uri |-> BUri(m, RuleOf(m, rules[m])),
-                  body |-> RuleOf(m, rules[m]).body,
-                  additional |-> [j \in 1..(Len(Bindings(m)) - 1) |->
-                                    [verb |-> Bindings(m)[j + 1].verb, uri |-> BUri(m, Bindings(m)[j + 1]),
-                                     body |-> Bindings(m)[j + 1].body]]]],
+    rules |-> [i \in 1..Len(YamlRules) |->
+                 LET e == YamlRules[i] IN
+                 [selector |-> ApiOf(e.m) \o "." \o e.m, verb |-> e.b.verb, uri |-> BUri(e.m, e.b), body |-> e.b.body,
+                  additional |-> [j \in 1..Len(e.add) |-> [verb |-> e.add[j].verb, uri |-> BUri(e.m, e.add[j]), body |-> e.add[j].body]]]],
+    dup |-> dup,
     addl |-> addl, own |-> RpcSeqOf(own), layout |-> layout, services |-> ServiceSeq, legacy |-> legacy, tmpl |-> tmpl,
     transports |-> SelectSeq(<<"grpc", "rest">>, LAMBDA t : t \in transports),
     clients |-> SelectSeq(<<"sync", "asyncio">>, LAMBDA c : c \in clients),
